@@ -103,7 +103,9 @@ TEXT = {
               "register_existing_rejected_no_effect and cross_registration_rejected; toggle_only_flag; delete_removes_all and "
               "convert_selfdestructed_deletes; regInvB_of_RegInv ties the invariant to the executable monitor evaluated on the raw dump of the three "
               "store prefixes of the real keeper. Tie: surface M (real keeper over the app's real stores with a scripted EVM), 4000 ops quick / "
-              "8x40000 thorough, three prefixes dumped raw + real gRPC TokenPairs/TokenPair after every operation."),
+              "8x40000 thorough, three prefixes dumped raw + real gRPC TokenPairs/TokenPair after every operation; one world per run holds more "
+              "than a hundred pairs (past one default page of the query servers) and re-imports its export; one keeper message in fifteen is "
+              "followed by a failing sibling of the same transaction (later=1)."),
         note=_NOTE + "Hypotheses: EnvOK, Fresh (fresh_deploy_addr), collision-free pair ids. Export/import is the keeper-level ExportGenesis -> emptied "
              "prefixes -> InitGenesis inside one context, not a chain restart (that is C18)."),
     "C14": dict(
@@ -113,7 +115,9 @@ TEXT = {
               "changes nothing, for every receipt), hook_gate_pair and hook_disabled_pair_frame (logs of toggled-off pairs convert nothing; in mixed "
               "receipts the coin of a toggled-off pair does not move at all), ordinary_transfers_unaffected (honest token: a holder's transfer to "
               "anybody but the module address succeeds exactly when the token call does and moves no coins, whatever the switches), "
-              "receiver_blocked_rejected, third_party_send_disabled_rejected, self_conversion_ignores_send_switch. Tie: surface M incl. an exhaustive "
+              "receiver_blocked_rejected, module_receiver_rejected (with every module account of the application's permissions table on the blocked "
+              "list - checked on the real wiring in every run - a conversion to any module account is rejected), switches_stored (an accepted "
+              "parameter update stores the requested switches), third_party_send_disabled_rejected, self_conversion_ignores_send_switch. Tie: surface M incl. an exhaustive "
               "sweep per run (2 pair kinds x 8 switch settings set by real messages x both message routes x receivers {self, third party with sends "
               "enabled/disabled, every module account} + hook route + ordinary transfer), monitors on every implementation transition."),
         note=_NOTE),
@@ -132,8 +136,9 @@ TEXT = {
               "that is a registered contract's address written as 40 hex digits, escrowed that unrelated coin and minted the pair's tokens; the model "
               "mirrors the repaired code (the guard is a step of convertCoin), the theorems carry no side condition on the denomination, the "
               "generator keeps producing such attempts (now rejected by model and implementation alike), pre-fix trace in corpus/C03/."),
-        note=_NOTE + "Closed-world side conditions HOpOK are hypotheses of the theorems (listed under assumptions). transferFrom/approve/burnFrom are not "
-             "separate operations of the model (ledger effect of transfer resp. burn by the owner); pausing is not modelled (the module never pauses; "
+        note=_NOTE + "Closed-world side conditions HOpOK are hypotheses of the theorems (listed under assumptions). transferFrom/burnFrom are not "
+             "separate operations of the model (ledger effect of transfer resp. burn by the owner), approve is (HolderCall.approve: nothing moves, the "
+             "Approval-shaped log is ignored by the hook); pausing is not modelled (the module never pauses; "
              "a paused external token only makes conversions fail)."),
     "C04": dict(
         text=("Proved for the model with the contract/EVM as an arbitrary oracle (every answer to every call: balances, return words, logs, errors, "
@@ -144,7 +149,8 @@ TEXT = {
               "Approval log for external tokens; nothing else of Canto's state changes), roundtrip_coin_token_coin and roundtrip_token_coin_token "
               "(honest token: converting and converting back restores every bank balance, supply, token balance and token supply, both pair kinds). "
               "Stated limit with machine-checked witness external_sender_debit_unchecked: for an external adversarial token the keeper can only check "
-              "the escrow side, so 'debits the sender exactly' holds for honest tokens only. Tie: surface M with 20 kinds of scripted deviation at "
-              "each call position; whole bank ledger + token ledger diffed on every operation."),
+              "the escrow side, so 'debits the sender exactly' holds for honest tokens only. later_failure_unchanged: a transaction containing a "
+              "failing message leaves the state as it was. Tie: surface M with 22 kinds of scripted deviation (incl. movements in the opposite "
+              "direction and doubled) at each call position; later=1 transactions; whole bank ledger + token ledger diffed on every operation."),
         note=_NOTE),
 }
